@@ -129,6 +129,7 @@ impl AliasParser {
         if let Some(r) = self.get_replacement_term() {
             replacements.push(r);
             loop {
+                #[cfg(asca_verif)] crate::verif::tick(60);
                 if !self.expect(AliasTokenKind::Comma) { 
                     break;
                 }
@@ -183,6 +184,7 @@ impl AliasParser {
         // returns (ARG (',' ARG)*)? ']' 
         let mut args = Modifiers::new();
         while self.has_more_tokens() {
+            #[cfg(asca_verif)] crate::verif::tick(61);
             if self.expect(AliasTokenKind::RightSquare) {
                 break;
             }
@@ -368,6 +370,7 @@ impl AliasParser {
         let mut start = None;
         let mut end = 0;
         while self.has_more_tokens() {
+            #[cfg(asca_verif)] crate::verif::tick(62);
             if self.peek_expect(AliasTokenKind::Cardinal) {
                 let (seg, params, pos) = self.get_ipa()?;
                 vec.push(SegType::Ipa(seg, params));
@@ -419,6 +422,7 @@ impl AliasParser {
         if let Some(trm) = self.get_input_term()? {
             inputs.push(trm);
             loop {
+                #[cfg(asca_verif)] crate::verif::tick(63);
                 if !self.expect(AliasTokenKind::Comma) { 
                     break;
                 }
